@@ -64,6 +64,7 @@ MC = {
 
 # ---- B3: vector generators (module, constants of the cfg per tier, formulas that judge the recorded steps) ----
 B3 = {
+    "C17": [dict(gen="Gen_Batch", quick="BatchSizes = {2, 3, 8, 16}", thorough="BatchSizes = {2, 3, 5, 8, 16, 32, 64}", props=["P_C17", "P_C16"])],
     "C18": [dict(gen="Gen_Settings", quick="MaxSettings = 3\n  AllOrders = FALSE", thorough="MaxSettings = 3\n  AllOrders = TRUE", props=["P_C18", "P_C10"])],
     "C06": [dict(gen="Gen_Canary", quick="Full = FALSE", thorough="Full = TRUE", props=["P_C06", "P_C08", "P_C14"])],
     "C03": [dict(gen="Gen_Limits",
